@@ -3,3 +3,4 @@ import OsyrisProofs.C14
 #print axioms Osyris.Readers.forVars_generic
 #print axioms Osyris.C14.C14_columns_independent
 #print axioms Osyris.C14.C14_zero_particles
+#print axioms Osyris.Readers.readAt_aligned
